@@ -124,6 +124,36 @@ def units_part(P, R):
                 f'{name}: read/write indices do not come from the same enumerate(inds)')
         zero = any(isinstance(s, ast.Assign) and norm(s.targets[0]) == rname and norm(s.value).startswith('np.zeros(') and 'bool' in norm(s.value) for s in f.node.body)
         R.check(zero, 'C02.b', f, None, f'{name}: the result starts all-False with one slot per selected point', f'{name}: result is not np.zeros(n, bool)', construct=f'{name} result init', nontrivial=False)
+    # the array polygon kernel asks the exact predicate for EVERY selected point; a skip is accepted only when its bounds are taken over the
+    # whole shape (all rings of all parts): the kernel is shared by polygons and multipolygons
+    import cfg as cfgmod
+    pk = P.func(PT, '_perform_intersects_polygon')
+    lp = [l for l in pk.node.body if isinstance(l, ast.For)]
+    if lp:
+        C = cfgmod.build(pk.node)
+        exact = [C.node(s_) for s_ in ast.walk(lp[0]) if isinstance(s_, ast.Assign) and isinstance(s_.value, ast.Call) and astq.is_call_to(P, pk, s_.value, pip)]
+        exact = [n_ for n_ in exact if n_ is not None]
+        skips = [s_ for s_ in ast.walk(lp[0]) if isinstance(s_, ast.If) and any(isinstance(x, (ast.Continue, ast.Break)) for x in s_.body)]
+        head = C.node(lp[0])
+        first = C.node(lp[0].body[0])
+        bypass = bool(exact) and first not in exact and C.can_reach(first, head, blocked=set(exact))
+        whole = True
+        for sk in skips:
+            srcs = set()
+            for nm in astq.names_in(sk.test):
+                g_, d_ = astq.unique_def(pk, nm)
+                if isinstance(d_, ast.AST):
+                    srcs.add(norm(d_))
+                elif isinstance(d_, tuple) and d_[0] == 'unpack':
+                    srcs.add(norm(d_[1]))
+            for a_ in astq.assignments(pk, next(iter(astq.names_in(sk.test) - {pk.params[0]}), '')):
+                pass
+            txt_ = ' '.join(srcs) + ' ' + ' '.join(norm(x[1]) for nm in astq.names_in(sk.test) for x in astq.assignments(pk, nm) if x[0] in ('expr', 'unpack'))
+            whole = whole and ('[-1]' in txt_ and '[0]' in txt_)
+        R.check(not bypass or (bool(skips) and whole), 'C02.b', pk, skips[0].test if skips else lp[0],
+                'the array polygon kernel asks point_intersects_polygon for every selected point (or skips only on a bbox of the whole shape)',
+                'the array polygon kernel can skip the exact test on a bbox that does not span all rings/parts of the shape (the kernel also serves multipolygons): '
+                'points inside a later part are reported False while the scalar form reports True', construct='no unsound skip before the exact polygon test')
     # inds=None -> arange(len(self))
     for name in ('PointArray._intersects_multipoint', 'PointArray._intersects_line', 'PointArray._intersects_polygon'):
         f = P.func(PT, name)
